@@ -221,6 +221,11 @@ def jobs_for(tier, seed):
             if 'b' not in seq and 'd' not in seq:
                 continue
             jobs.append((h, list(seq), seed))
+    # empty measures between barlines of the same type, global comments next to barlines and data rows
+    for h, L in ((['**kern'], 6 if quick else 7), (['**kern', '**text'], 5 if quick else 6)):
+        for seq in X.all_seqs(['d', 'e', 'g'], L):
+            if 'e' in seq and ('g' in seq or any(a == b == 'e' for a, b in zip(seq, seq[1:]))):
+                jobs.append((h, list(seq), seed))
     dev_h = [['**kern', '**kern']] if quick else [['**kern'], ['**kern', '**kern'], ['**text', '**kern', '**kern']]
     for j in D.deviation_docs(dev_h, 2, (seed,), BACKBONE, MENU):
         jobs.append(j)
@@ -236,7 +241,7 @@ def jobs_for(tier, seed):
 def run(ctx):
     ctx.rule = ('every row sequence up to the length bound + all <=k deviations of a backbone (delete opening/closing barline, pickup, double barline, null rows, '
                 'interpretation inside a measure, split/join inside a measure) x every measure pair; non-trivial = document with >= 3 measures')
-    ctx.bounds = {'sequence_length': '5/4/4/3 (quick) 6/5/5/4 (thorough) for 1/2/2/3 spines', 'deviations_k': 2 if ctx.quick else 3}
+    ctx.bounds = {'sequence_length': '5/4/4/3 (quick) 6/5/5/4 (thorough) for 1/2/2/3 spines', 'plain_barline_and_global_comment_sequences': '6/5 (quick) 7/6 (thorough) over data row, plain barline, global comment', 'deviations_k': 2 if ctx.quick else 3}
     ctx.assumptions = ['a data line = a line none of whose cells starts with * ! or =; the oracle is indifferent to whether an empty leading measure is numbered']
     jobs = jobs_for(ctx.tier, ctx.seed)
     jobs += [(j[0], j[1], j[2], 1 + k % 4) for k, j in enumerate(jobs) if k % 7 == 0]   # blank-line variants
